@@ -125,6 +125,7 @@ Proof.
     + intros b Hb. unfold fupd in Hb. destruct (Nat.eqb_spec b a) as [E|E].
       * subst. simpl. apply fupd_same.
       * apply D. exact Hb.
+  - destruct (q_can_send s p); auto.
 Qed.
 
 Lemma J_run ops : forall s, J s -> J (fst (q_run s ops)).
@@ -147,6 +148,25 @@ Proof.
   - intros a Ha x Hx E. destruct (T x Hx) as [_ [T2 _]]. congruence.
   - intros p t v. unfold q_deliver. f_equal. apply filter_ext_in. intros x Hx.
     destruct (T x Hx) as [_ [T2 _]]. rewrite T2. apply andb_true_r.
+Qed.
+
+(* a publication that cannot travel: exactly the subscriptions of the topic on the publisher's node, once each, with the
+   publisher as sender; nobody on the other node; nothing changes *)
+Lemma remote_local_only ops s outs p t v :
+  q_run qinit ops = (s, outs) -> q_can_send s p = true ->
+  q_step s (QPubL p t v) =
+    (s, QOut [] (q_group (map (fun x => (q_who x, t, v, qref_of p))
+                              (filter (fun x => (q_topic x =? t) && (q_node x =? qpub_node p)) (qtab s))))) /\
+  (forall d, In d (q_deliver_local s p t v) -> let '(to, _, _, _) := d in node_of to = qpub_node p).
+Proof.
+  intros H Hc. pose proof (J_run ops qinit J_init) as I. rewrite H in I. simpl in I. destruct I as [T N L D].
+  assert (E : q_deliver_local s p t v = map (fun x => (q_who x, t, v, qref_of p))
+                (filter (fun x => (q_topic x =? t) && (q_node x =? qpub_node p)) (qtab s))).
+  { unfold q_deliver_local. f_equal. apply filter_ext_in. intros x Hx. destruct (T x Hx) as [_ [T2 _]]. rewrite T2. apply andb_true_r. }
+  split.
+  - simpl. rewrite Hc, E. reflexivity.
+  - intros d Hd. rewrite E in Hd. apply in_map_iff in Hd. destruct Hd as (x & <- & Hx). apply filter_In in Hx. destruct Hx as [Hx Hf].
+    apply andb_true_iff in Hf. destruct Hf as [_ Hn]. apply Nat.eqb_eq in Hn. destruct (T x Hx) as [T1 _]. congruence.
 Qed.
 
 Lemma remote_release ops s outs a :
